@@ -201,7 +201,7 @@ def response_kind(resp):
     return "value"
 
 
-def run_stream(name, requests, workdir, nworkers=NCPU, compare=None, weight=None, model_only=False):
+def run_stream(name, requests, workdir, nworkers=NCPU, compare=None, weight=None, model_only=False, groups=None):
     """Feed the same request lines to the real code (oracle) and the Lean model (driver);
     compare responses line by line. `compare(req, impl, model)` may override equality."""
     res = StreamResult(name)
@@ -210,7 +210,14 @@ def run_stream(name, requests, workdir, nworkers=NCPU, compare=None, weight=None
         return res
     os.makedirs(workdir, exist_ok=True)
     n = max(1, min(nworkers, len(requests) // 50 + 1))
-    chunks = [requests[i::n] for i in range(n)]
+    if groups:
+        # stateful protocol: a group (header + its queries) stays together, in order
+        chunks = [[] for _ in range(n)]
+        for gi, g in enumerate(sorted(groups, key=len, reverse=True)):
+            min(chunks, key=len).extend(g)
+        chunks = [c for c in chunks if c]
+    else:
+        chunks = [requests[i::n] for i in range(n)]
     files = []
     for i, ch in enumerate(chunks):
         rq = os.path.join(workdir, "%s.%d.req" % (name, i))
